@@ -302,20 +302,31 @@ def parseGroups (T : NameTables) : List (String × J) → Except PErr (List (Str
     | .error e => .error e
     | .ok t => (parseGroups T r).map (fun rest => (g, t) :: rest)
 
+/-- l.87-89: `default_policy = object_policy.get('preset')`, parsed when truthy -/
+def parsePresetSection (T : NameTables) (body : List (String × J)) : Except PErr (Option ObjTbl) :=
+  match dget body "preset" with
+  | some v => if v.truthy then (parsePolicy T v).map some else .ok none
+  | none => .ok none
+
+/-- l.91-98: `group_policies = object_policy.get('groups')`, parsed when truthy -/
+def parseGroupsSection (T : NameTables) (body : List (String × J)) : Except PErr (Option (List (String × ObjTbl))) :=
+  match dget body "groups" with
+  | some v =>
+    if v.truthy then
+      match v with
+      | .obj gkvs => (parseGroups T gkvs).map some
+      | _ => .error .attributeError                             -- `six.iteritems(group_policies)`
+    else .ok none
+  | none => .ok none
+
 /-- l.85-100: a body whose keys are all in {'groups', 'preset'} -/
-def parseSectioned (T : NameTables) (body : List (String × J)) : Except PErr PolicyVal := do
-  let preset ← match dget body "preset" with
-    | some v => if v.truthy then (parsePolicy T v).map some else .ok none
-    | none => .ok none
-  let groups ← match dget body "groups" with
-    | some v =>
-      if v.truthy then
-        match v with
-        | .obj gkvs => (parseGroups T gkvs).map some
-        | _ => .error .attributeError                           -- `six.iteritems(group_policies)`
-      else .ok none
-    | none => .ok none
-  pure ⟨preset, groups⟩
+def parseSectioned (T : NameTables) (body : List (String × J)) : Except PErr PolicyVal :=
+  match parsePresetSection T body with
+  | .error e => .error e
+  | .ok preset =>
+    match parseGroupsSection T body with
+    | .error e => .error e
+    | .ok groups => .ok ⟨preset, groups⟩
 
 /-- l.78-109: one `(name, object_policy)` of the document; `none` = skipped (`continue`) -/
 def parseEntry (T : NameTables) (body : J) : Except PErr (Option PolicyVal) :=
